@@ -33,7 +33,15 @@
 #ifndef NCH
 #define NCH 2
 #endif
-#define MAXROWS 10
+/* NROWS: number of rows of the table = number of schema elements (checked below); the copy has exactly NROWS+1 rows */
+#ifndef NROWS
+#define NROWS 10
+#endif
+#define MAXROWS NROWS
+#ifndef HAS_COMPOSITE
+#define HAS_COMPOSITE 1
+#endif
+#define NA (NCH > 0 ? NCH : 1)   /* array dimension (no zero-length arrays) */
 
 #define CAT_(a, b) a##b
 #define CAT(a, b) CAT_(a, b)
@@ -42,27 +50,27 @@ KSI_IMPORT_TLV_TEMPLATE(TMPL);
 
 static const struct c10_elem S[] = CAT(C10_SCHEMA_, TMPL);
 #define NS ((unsigned)(sizeof(S) / sizeof(S[0])))
-static const int shape[NCH] = SHAPE;
+static const int shape[NA] = SHAPE;
 
 /* ---- recording stubs ---- */
 struct pl { void *slot[MAXROWS]; };
-struct slist { unsigned n; void *item[NCH]; };
+struct slist { unsigned n; void *item[NA]; };
 
 static struct pl top;               /* the payload handed to the engine */
-static struct pl tokpl[NCH];        /* object produced for child j (leaf value or composite payload) */
-static KSI_TLV *child[NCH];
+static struct pl tokpl[NA];        /* object produced for child j (leaf value or composite payload) */
+static KSI_TLV *child[NA];
 static int cur = -1;                /* child most recently handed out by the generator */
 static unsigned gidx;
-static _Bool leaf_ok[NCH];
-static unsigned parsed[NCH], stored[NCH], destroyed[NCH];
+static _Bool leaf_ok[NA];
+static unsigned parsed[NA], stored[NA], destroyed[NA];
 static unsigned bad;                /* protocol violations seen by a stub (checked to be 0) */
 
 #define DEF_GS(k) \
 	static int get##k(const void *p, void **v) { *v = ((const struct pl *)p)->slot[k]; return KSI_OK; } \
 	static int set##k(void *p, void *v) { ((struct pl *)p)->slot[k] = v; if (cur >= 0 && v == (void *)&tokpl[cur]) stored[cur]++; return KSI_OK; }
 DEF_GS(0) DEF_GS(1) DEF_GS(2) DEF_GS(3) DEF_GS(4) DEF_GS(5) DEF_GS(6) DEF_GS(7) DEF_GS(8) DEF_GS(9)
-static int (*const GET[MAXROWS])(const void *, void **) = {get0, get1, get2, get3, get4, get5, get6, get7, get8, get9};
-static int (*const SET[MAXROWS])(void *, void *) = {set0, set1, set2, set3, set4, set5, set6, set7, set8, set9};
+static int (*const GET[10])(const void *, void **) = {get0, get1, get2, get3, get4, get5, get6, get7, get8, get9};
+static int (*const SET[10])(void *, void *) = {set0, set1, set2, set3, set4, set5, set6, set7, set8, set9};
 
 static int produce(void **out) {
 	if (cur < 0 || cur >= NCH) { bad++; return KSI_UNKNOWN_ERROR; }
@@ -79,26 +87,43 @@ static int stub_parser(KSI_CTX *ctx, unsigned char *raw, size_t len, int opt, vo
 	(void)ctx; (void)raw; (void)len; (void)opt;
 	return produce((void **)out);
 }
-static int stub_construct(KSI_CTX *ctx, void **out) { (void)ctx; return produce(out); }
+static int stub_construct(KSI_CTX *ctx, void **out) {
+	(void)ctx;
+#if !HAS_COMPOSITE
+	/* The table has no composite row (checked at harness start), so a feasible run never gets here; CBMC still
+	 * explores the branch because the row index is symbolic: fail at once (and flag it) to keep that branch small. */
+	(void)out; bad++; return KSI_UNKNOWN_ERROR;
+#else
+	return produce(out);
+#endif
+}
 static void stub_destruct(void *p) {
 	if (p == NULL) return;
 	if (cur < 0 || cur >= NCH || p != (void *)&tokpl[cur]) { bad++; return; }   /* only the object just produced */
 	destroyed[cur]++;
 }
+static struct slist lists[NA];     /* a list is created while some child is being processed: at most one per child */
+static unsigned lists_made[NA];
 static int stub_listNew(void **l) {
-	struct slist *s = malloc(sizeof(*s));
-	ASSUME(s != NULL);
-	s->n = 0;
-	for (unsigned k = 0; k < NCH; k++) s->item[k] = NULL;
-	*l = s;
+	if (cur < 0 || cur >= NCH || lists_made[cur] != 0) { bad++; return KSI_UNKNOWN_ERROR; }
+	lists_made[cur]++;
+	lists[cur].n = 0;
+	*l = &lists[cur];
 	return KSI_OK;
 }
 static void stub_listFree(void *l) { if (l != NULL) bad++; }   /* only reached when append/set fail, which these stubs never do */
 static int stub_listAppend(void *l, void *v) {
-	struct slist *s = l;
-	if (s == NULL || s->n >= NCH || cur < 0 || v != (void *)&tokpl[cur]) { bad++; return KSI_UNKNOWN_ERROR; }
-	for (unsigned k = 0; k < NCH; k++) if (k == s->n) s->item[k] = v;
-	s->n++;
+	/* the list is identified by comparing pointers, never by dereferencing l: a slot value may be a list or a
+	 * leaf object and CBMC would otherwise consider writes through l into the leaf objects */
+	int hit = 0;
+	if (cur < 0 || v != (void *)&tokpl[cur]) { bad++; return KSI_UNKNOWN_ERROR; }
+	for (unsigned q = 0; q < NCH; q++) if (l == (void *)&lists[q]) {
+		hit = 1;
+		if (lists[q].n >= NCH) { bad++; return KSI_UNKNOWN_ERROR; }
+		for (unsigned k = 0; k < NCH; k++) if (k == lists[q].n) lists[q].item[k] = v;
+		lists[q].n++;
+	}
+	if (!hit) { bad++; return KSI_UNKNOWN_ERROR; }
 	stored[cur]++;
 	return KSI_OK;
 }
@@ -123,9 +148,9 @@ void harness(void) {
 	int res;
 
 	/* ---- copy of the real table, function-pointer columns redirected ---- */
-	unsigned nrows = 0;
-	for (unsigned r = 0; r <= MAXROWS; r++) if (nrows == r && real[r].tag != 0) nrows = r + 1;
-	CHECK(nrows >= 1 && nrows <= MAXROWS && real[nrows].tag == 0, "C10.tmpl table fits the harness");
+	unsigned nrows = 0; int has_composite = 0;
+	for (unsigned r = 0; r < MAXROWS; r++) if (nrows == r && real[r].tag != 0) nrows = r + 1;
+	CHECK(nrows == NROWS && NROWS <= 10 && NROWS == NS && real[nrows].tag == 0, "C10.tmpl table has as many rows as the schema has elements");
 	for (unsigned r = 0; r <= MAXROWS; r++) {
 		if (r > nrows) continue;
 		T[r] = real[r];
@@ -143,7 +168,9 @@ void harness(void) {
 		T[r].listLength = NULL; T[r].listElementAt = NULL; T[r].toTlv = NULL; T[r].setRaw = NULL;
 		if (real[r].fromTlv != NULL) T[r].fromTlv = stub_fromTlv;
 		if (real[r].parser != NULL) T[r].parser = stub_parser;
+		if (real[r].type == KSI_TLV_TEMPLATE_COMPOSITE) has_composite = 1;
 	}
+	CHECK(has_composite == HAS_COMPOSITE, "C10.tmpl HAS_COMPOSITE of the instance matches the table");
 	/* table and schema speak about the same set of tags; tags are unique in both */
 	int row_of[NS];
 	for (unsigned e = 0; e < NS; e++) {
@@ -161,7 +188,7 @@ void harness(void) {
 	unsigned unk = ND(u16, unk);
 	ASSUME(unk <= 0x1fff);
 	for (unsigned e = 0; e < NS; e++) ASSUME(unk != S[e].tag);
-	unsigned tag[NCH]; _Bool nc[NCH];
+	unsigned tag[NA]; _Bool nc[NA];
 	for (unsigned j = 0; j < NCH; j++) {
 		if (shape[j] >= 0) {
 			tag[j] = (unsigned)shape[j];
@@ -177,6 +204,11 @@ void harness(void) {
 		child[j] = NULL;
 		res = KSI_TLV_new(ctx, tag[j], nc[j], fwd, &child[j]);
 		ASSUME(res == KSI_OK);
+#if HAS_COMPOSITE
+		/* the child has no nested elements; expand its (empty) nested list now so that the engine's
+		 * KSI_TLV_getNestedList finds it (lazy TLV expansion itself is C09's subject) */
+		{ KSI_LIST(KSI_TLV) *nl = NULL; res = KSI_TLV_getNestedList(child[j], &nl); ASSUME(res == KSI_OK && nl != NULL); }
+#endif
 	}
 
 	/* ---- the engine ---- */
@@ -184,7 +216,7 @@ void harness(void) {
 	res = KSI_TlvTemplate_extractGenerator(ctx, &top, &gctx, T, gen);
 
 	/* ---- reference: the schema ---- */
-	int el[NCH];
+	int el[NA];
 	int ok = 1;
 	for (unsigned j = 0; j < NCH; j++) {
 		el[j] = -1;
@@ -241,12 +273,17 @@ void harness(void) {
 				else CHECK(slot_of[row_of[f] < 0 ? 0 : row_of[f]] != s, "C10.tmpl different fields have different storage locations");
 			unsigned k = 0; int same = 1;
 			if (S[e].max == C10_MANY) {
-				struct slist *l = top.slot[s];
-				for (unsigned j = 0; j < NCH; j++) if (el[j] >= 0 && S[el[j]].field == S[e].field) {
-					if (l == NULL || k >= l->n || l->item[k < NCH ? k : 0] != (void *)&tokpl[j]) same = 0;
-					k++;
+				int lq = -1;                                   /* which list object the slot points to */
+				for (unsigned q = 0; q < NCH; q++) if (top.slot[s] == (void *)&lists[q]) lq = (int)q;
+				if (top.slot[s] != NULL && lq < 0) same = 0;
+				for (unsigned q = 0; q < NCH; q++) if (lq == (int)q) {
+					for (unsigned j = 0; j < NCH; j++) if (el[j] >= 0 && S[el[j]].field == S[e].field) {
+						if (k >= lists[q].n || lists[q].item[k < NCH ? k : 0] != (void *)&tokpl[j]) same = 0;
+						k++;
+					}
+					if (lists[q].n != k) same = 0;
 				}
-				if (k == 0) { if (l != NULL) same = 0; } else if (l == NULL || l->n != k) same = 0;
+				if (lq < 0) for (unsigned j = 0; j < NCH; j++) if (el[j] >= 0 && S[el[j]].field == S[e].field) same = 0;
 				CHECK(same, "C10.tmpl a repeatable field holds the objects of its children in input order");
 			} else {
 				void *want = NULL;
